@@ -157,6 +157,91 @@ pub fn run(tier: &str) -> i32 {
         acc.violations.extend(a.violations);
     }
 
+    // (4) types that grow after they were printed: a type is a value the host keeps, prints (error
+    //     messages, REPL) and widens later. For every ordered pair (and triple over a smaller set)
+    //     of the depth-1 universe and every widening operation of the public API (`|`, `|=`,
+    //     `concat`), each intermediate type is printed - itself and a clone of it - before the next
+    //     step; the text of the final type must parse back to it. What was printed earlier must not
+    //     stick to the type
+    let grown = {
+        let u1: Vec<Ty> = universe::u1();
+        let small: Vec<Ty> = u1.iter().step_by((u1.len() / 14).max(1)).cloned().collect();
+        let mut seqs: Vec<Vec<usize>> = Vec::new();
+        for a in 0..u1.len() {
+            for b in 0..u1.len() {
+                seqs.push(vec![a, b]);
+            }
+        }
+        let idx_small: Vec<usize> = small.iter().map(|t| u1.iter().position(|x| x == t).unwrap()).collect();
+        for &a in &idx_small {
+            for &b in &idx_small {
+                for &c in &idx_small {
+                    seqs.push(vec![a, b, c]);
+                }
+            }
+        }
+        let accs = par_fold(seqs.len(), Acc::default, |acc, i| {
+            let seq = &seqs[i];
+            for op in 0..3usize {
+                let r = guard(|| {
+                    let mut t = build(&u1[seq[0]]);
+                    let mut model = u1[seq[0]].clone();
+                    let mut printed = vec![t.to_string()];
+                    for &k in &seq[1..] {
+                        let copy = t.clone();
+                        printed.push(copy.to_string());
+                        let rhs = build(&u1[k]);
+                        t = match op {
+                            0 => t | rhs,
+                            1 => {
+                                t |= rhs;
+                                t
+                            }
+                            _ => t.concat(rhs),
+                        };
+                        model = Ty::union([model, u1[k].clone()]);
+                        printed.push(t.to_string());
+                        printed.push(copy.to_string());
+                    }
+                    (t, model, printed)
+                });
+                let how = ["grown-by-bitor", "grown-by-bitor-assign", "grown-by-concat"][op];
+                match r {
+                    Ok((t, model, printed)) => {
+                        acc.types += 1;
+                        let text = t.to_string();
+                        check_text(&model, &t, &text, how, acc);
+                        // the widened type holds every member it was built from
+                        let holds_all = seq.iter().all(|&k| build(&u1[k]).matches(&t));
+                        if !holds_all {
+                            acc.violations.push(Violation {
+                                sig: format!("C15|grown-type-lost-a-member|{how}|{}", p(&model)),
+                                detail: json!({"kind": "type_roundtrip", "type": model.print(), "text": text, "printed_on_the_way": printed}),
+                            });
+                        }
+                    }
+                    Err(Stop::Panic(pn)) => acc.violations.push(Violation {
+                        sig: format!("C15|panic|{how}|{}|{}", pn.file(), pn.short_msg()),
+                        detail: json!({"kind": "type_roundtrip", "type": seq.iter().map(|&k| u1[k].print()).collect::<Vec<_>>().join(" then "), "panic": pn.msg}),
+                    }),
+                    Err(Stop::Exhausted) => {}
+                }
+            }
+        });
+        let mut g = Acc::default();
+        for a in accs {
+            g.round_trips += a.round_trips;
+            g.types += a.types;
+            g.distinct_texts.extend(a.distinct_texts);
+            g.violations.extend(a.violations);
+        }
+        g
+    };
+    let grown_cases = grown.types;
+    acc.round_trips += grown.round_trips;
+    acc.distinct_texts.extend(grown.distinct_texts);
+    acc.violations.extend(grown.violations);
+
     // (3) the interpreter's internal re-parse: `it ? T` for every T with a default value
     let tf = core::on_big_stack(|| {
         let mut out = Vec::new();
@@ -199,6 +284,7 @@ pub fn run(tier: &str) -> i32 {
         "types_whose_order_product_was_capped": capped,
         "round_trips": round_trips,
         "distinct_texts": distinct_texts.len(),
+        "types_grown_after_printing": grown_cases,
         "type_filter_programs_run": tf.1,
         "type_filter_rejected_no_default": tf.2,
         "distinct_outcomes": 2,
